@@ -7,17 +7,31 @@ def sh(cmd, **kw):
     return subprocess.run(cmd, shell=True, stdout=subprocess.PIPE, stderr=subprocess.STDOUT, text=True, **kw)
 patch = os.path.abspath(sys.argv[1])
 props = sys.argv[2:] or ["C%02d" % i for i in range(1, 17)]
-assert sh("git -C /repo status --porcelain").stdout.strip() == "", "/repo is dirty"
-r = sh("git -C /repo apply --whitespace=nowarn " + patch)
+SCRATCH = os.environ.get("MUT_SCRATCH") == "1"   # check in a scratch worktree (VERIF_REPO) instead of applying to /repo
+TARGET = "/repo"
+if SCRATCH:
+    TARGET = "/root/mutwt-%d" % os.getpid()
+    assert sh("git -C /repo worktree add -q --detach %s HEAD" % TARGET).returncode == 0
+else:
+    assert SCRATCH or sh("git -C /repo status --porcelain").stdout.strip() == "", "/repo is dirty"
+r = sh("git -C %s apply --whitespace=nowarn %s" % (TARGET, patch))
 if r.returncode != 0:
-    print("cannot apply:", r.stdout); sys.exit(2)
+    print("cannot apply:", r.stdout)
+    if SCRATCH:
+        sh("git -C /repo worktree remove --force " + TARGET)
+    sys.exit(2)
 res = {}
+# evidence files describe the UNCHANGED tree: keep them out of the way while the mutated tree is checked
+import shutil, tempfile
+evid_backup = tempfile.mkdtemp(prefix="evid-", dir=os.path.join(ROOT, ".build"))
+for f in os.listdir(os.path.join(ROOT, "evidence")):
+    shutil.copy2(os.path.join(ROOT, "evidence", f), evid_backup)
 try:
-    b = sh("cd /repo && GOPROXY=off GOSUMDB=off GOTOOLCHAIN=local go build ./... ")
+    b = sh("cd %s && GOPROXY=off GOSUMDB=off GOTOOLCHAIN=local go build ./... " % TARGET)
     if b.returncode != 0:
         print("does not compile:", b.stdout[-500:]); sys.exit(2)
     for p in props:
-        r = sh("cd %s && bin/check %s --tier quick" % (ROOT, p), timeout=1800)
+        r = sh("cd %s && %sbin/check %s --tier quick" % (ROOT, ("VERIF_REPO=%s " % TARGET) if SCRATCH else "", p), timeout=1800)
         viol = [l for l in r.stdout.split("\n") if l.startswith("VIOLATION")]
         if not viol:
             res[p] = "ok" if r.returncode == 0 else "exit %d: %s" % (r.returncode, r.stdout[-300:])
@@ -36,8 +50,15 @@ try:
             res[p] = ("VIOLATION(no-failing-input) " if nofail else "VIOLATION ") + clause
         print("%s %s" % (p, res[p]), flush=True)
 finally:
-    sh("git -C /repo checkout -- .")
-    sh("git -C /repo clean -fdq")
+    for f in os.listdir(evid_backup):
+        shutil.copy2(os.path.join(evid_backup, f), os.path.join(ROOT, "evidence", f))
+    shutil.rmtree(evid_backup, ignore_errors=True)
+    if SCRATCH:
+        sh("git -C /repo worktree remove --force " + TARGET)
+        sh("git -C /repo worktree prune")
+    else:
+        sh("git -C /repo checkout -- .")
+        sh("git -C /repo clean -fdq")
     # restore the generated tables for the unchanged tree
     sh("cd %s && .build/extract /repo lean/GoLucene/Generated/Tables.lean" % ROOT)
-assert sh("git -C /repo status --porcelain").stdout.strip() == ""
+assert SCRATCH or sh("git -C /repo status --porcelain").stdout.strip() == ""
